@@ -93,13 +93,46 @@ Proof.
     destruct rest as [|c r]; [reflexivity|]. simpl. rewrite Hr. destruct (c =? 61); reflexivity.
 Qed.
 
+(* the same walks for the class predicate bs_sensitive (no SValBs state is met before the value) *)
+Lemma bs_key : forall k kacc rest, forallb keychar k = true ->
+  bs_sensitive (SKey kacc) (k ++ rest) = bs_sensitive (SKey (rev k ++ kacc)) rest.
+Proof.
+  induction k as [|c k IH]; intros kacc rest H; simpl in *; [reflexivity|].
+  apply andb_true_iff in H. destruct H as [Hc Hk]. unfold keychar in Hc. apply andb_true_iff in Hc. destruct Hc as [Hb He].
+  apply negb_true_iff in Hb, He. rewrite Hb, He. rewrite IH by assumption. now rewrite <- app_assoc.
+Qed.
+
+Lemma bs_blank_start : forall w rest, forallb blank w = true -> bs_sensitive SItemStart (w ++ rest) = bs_sensitive SItemStart rest.
+Proof.
+  induction w as [|c w IH]; intros rest H; simpl in *; [reflexivity|].
+  apply andb_true_iff in H. destruct H as [Hc Hw]. rewrite Hc. auto.
+Qed.
+
+Lemma bs_blank_afterkey : forall w k rest, forallb blank w = true -> bs_sensitive (SAfterKey k) (w ++ rest) = bs_sensitive (SAfterKey k) rest.
+Proof.
+  induction w as [|c w IH]; intros k rest H; simpl in *; [reflexivity|].
+  apply andb_true_iff in H. destruct H as [Hc Hw]. rewrite Hc. auto.
+Qed.
+
+Lemma bs_key_then_blank k w c r : forallb blank w = true -> (c =? 61) = true ->
+  bs_sensitive (SKey k) (w ++ c :: r) = bs_sensitive (SVal k [] false) r.
+Proof.
+  intros Hw Hc. assert (Hb : blank c = false).
+  { destruct (blank c) eqn:E; [|reflexivity]. apply blank_not_eq in E. congruence. }
+  destruct w as [|b w].
+  - simpl. now rewrite Hb, Hc.
+  - simpl in Hw. apply andb_true_iff in Hw. destruct Hw as [Hbb Hw]. simpl. rewrite Hbb.
+    rewrite bs_blank_afterkey by assumption. simpl. now rewrite Hb, Hc.
+Qed.
+
 (* find_key against the reader, for a text without NUL *)
 Lemma find_key_spec s : no_nul s ->
   match find_key s with
   | KErr => srun SItemStart s = ([], SNoEquals)
   | KEmpty rest => (rest = [] /\ srun SItemStart s = ([], SEndOk)) \/
                    (exists r, rest = 61 :: r /\ srun SItemStart s = ([], SEmptyKey))
-  | KOk k rest => k <> [] /\ no_nul rest /\ srun SItemStart s = srun (SVal (rev k) [] false) rest
+  | KOk k rest => k <> [] /\ no_nul rest /\ srun SItemStart s = srun (SVal (rev k) [] false) rest /\
+                  bs_sensitive SItemStart s = bs_sensitive (SVal (rev k) [] false) rest
   end.
 Proof.
   intros Hn. unfold find_key.
@@ -111,7 +144,7 @@ Proof.
   destruct (skip_white_split s2) as [w2 [E3 [Hw2 Hh3]]].
   set (s3 := skip_white s2) in *.
   assert (Hn3 : no_nul s3) by (rewrite E3 in Hn2; eapply no_nul_app; eauto).
-  rewrite E1, srun_blank_start by assumption.
+  rewrite E1, srun_blank_start, bs_blank_start by assumption.
   destruct k as [|k0 k'].
   - (* empty key: s1 = s2 begins with a non-key character that is not blank, i.e. '=' , or is empty *)
     simpl in E2. subst s2.
@@ -132,11 +165,16 @@ Proof.
     { unfold k. simpl in Hk. apply andb_true_iff in Hk. destruct Hk as [Hk0 Hk'].
       simpl. unfold keychar in Hk0. apply andb_true_iff in Hk0. destruct Hk0 as [Hb He]. apply negb_true_iff in Hb, He.
       rewrite Hb, He. rewrite srun_key by assumption. reflexivity. }
-    rewrite Hstart, E3. rewrite srun_key_then_blank by assumption.
+    assert (Hstartb : bs_sensitive SItemStart (k ++ s2) = bs_sensitive (SKey (rev k)) s2).
+    { unfold k. simpl in Hk. apply andb_true_iff in Hk. destruct Hk as [Hk0 Hk'].
+      simpl. unfold keychar in Hk0. apply andb_true_iff in Hk0. destruct Hk0 as [Hb He]. apply negb_true_iff in Hb, He.
+      rewrite Hb, He. rewrite bs_key by assumption. reflexivity. }
+    rewrite Hstart, Hstartb, E3. rewrite srun_key_then_blank by assumption.
     destruct s3 as [|c r] eqn:Es3.
     + reflexivity.
     + destruct (c =? EQUALS) eqn:Ec; unfold EQUALS in Ec; rewrite Ec.
-      * split; [discriminate|]. split; [|reflexivity]. apply no_nul_cons in Hn3. tauto.
+      * split; [discriminate|]. split; [apply no_nul_cons in Hn3; tauto|]. split; [reflexivity|].
+        apply bs_key_then_blank; assumption.
       * (* a non-blank, non-'=' character right after the key is impossible unless blanks intervened *)
         destruct w2 as [|b w2]; [|reflexivity].
         exfalso. simpl in E3. rewrite E3 in Hh2. unfold keychar in Hh2. rewrite Hh3, Ec in Hh2. discriminate.
